@@ -231,3 +231,20 @@ def run(ctx):
             ctx.oblige(ok, "C03.4", "compact:store(%s)#%d-after-runs-cleared" % (r, k),
                        "compaction clears the run list before it publishes the new %s: a snapshot taken in between has neither the runs nor the tree "
                        "they were sunk into (committed properties / statistics missing for its whole lifetime)" % r, s.loc())
+
+    # ---- clause 5: commit publishes the run last ------------------------------------------------------------------------
+    # Same protocol on the commit side: begin_read samples published_runs first and the node table (published_node_labels / id map) last,
+    # so commit must make the node table visible first and the run last — a reader that sees the run then also sees the nodes its edges and
+    # properties refer to.  Publishing the run earlier shows a transaction partially (edges without their nodes), for good if a later
+    # node-table step of that commit fails.
+    ctx.rule("C03.5", "in WriteTxn::commit publish_run is the last publication: no node-table application or label publication is reachable after it")
+    cm = ctx.body(M.COMMIT)
+    psites = M.publication_sites(cm)
+    runs_p = [c for c, w in psites if w == "publish_run"]
+    ctx.floor("C03.5", "publish_run sites in commit", len(runs_p), 1)
+    for k, pr in enumerate(runs_p):
+        later = [(c, w) for c, w in psites if c is not pr and pr.target is not None and c.bb in cm.reachable([pr.target])]
+        ctx.instance("C03.5", "commit: publish_run#%d followed by %s" % (k, [w for _, w in later] or "nothing"))
+        ctx.oblige(not later, "C03.5", "commit:publish_run#%d-not-last" % k,
+                   "the run is handed to readers before %s: a snapshot taken in between shows the transaction's edges and properties without its nodes "
+                   "(and keeps showing them if that later step fails)" % sorted({w for _, w in later}), pr.loc())
